@@ -462,4 +462,12 @@ pub proof fn lemma_zero_stream(s: Seq<u8>)
     if s.len() > 0 { assert(s[0] == 0u8); }
 }
 
+
+// ------------------------------------------------------------------ reference decoder of the Kani companion
+pub open spec fn pow128(n: nat) -> nat decreases n { if n == 0 { 1 } else { 128 * pow128((n - 1) as nat) } }
+pub proof fn lemma_pow128_step(n: nat) ensures pow128(n + 1) == 128 * pow128(n), pow128(n) > 0 decreases n { if n > 0 { lemma_pow128_step((n - 1) as nat); } }
+pub proof fn lemma_pow128_mono(a: nat, b: nat) requires a <= b ensures pow128(a) <= pow128(b) decreases b - a {
+    if a < b { lemma_pow128_mono(a, (b - 1) as nat); lemma_pow128_step((b - 1) as nat); }
+}
+
 } // verus!
